@@ -40,7 +40,11 @@ def seeded_table():
 
 def main():
     d = os.path.join(VERIF, "docs")
-    parts = [open(os.path.join(d, "DESIGN_head.md")).read().rstrip() + "\n"]
+    import subprocess
+    nfix = len([l for l in subprocess.run(["git", "-C", "/repo", "log", "--format=%s"], capture_output=True, text=True).stdout.splitlines() if l.startswith("fix:")])
+    nknown = len([f for f in findings() if f.get("status") == "known"])
+    head = open(os.path.join(d, "DESIGN_head.md")).read().replace("{{NFIX}}", str(nfix)).replace("{{NKNOWN}}", str(nknown))
+    parts = [head.rstrip() + "\n"]
     for pid in ORDER:
         p = os.path.join(d, pid + ".md")
         if os.path.exists(p):
